@@ -371,8 +371,17 @@ func indexOfLoad(v ssa.Value, base ssa.Value) (ssa.Value, bool) {
 	return ia.Index, true
 }
 
-// gateRule: a true result of callee dominates a `return true` of fn.
+// gateRule: a true result of callee makes fn return true — at every call site
+// the result is tested by a branch whose true side only returns true, or is
+// returned as it is; when fn does not call callee itself, the same must hold
+// along a chain of boolean helpers (fn → h → callee, two levels).
 func gateRule(p *core.Program, r *core.Result, fn, callee *ssa.Function, what string) {
+	if !gateChain(p, r, fn, callee, what, 0, true) {
+		r.Fail("D8", core.QualName(fn), what, p.Pos(fn.Pos()), "no call of "+callee.Name()+" in "+fn.Name()+" (or in a boolean helper it calls): the value is not routed to it")
+	}
+}
+
+func gateChain(p *core.Program, r *core.Result, fn, callee *ssa.Function, what string, depth int, report bool) bool {
 	n := 0
 	for _, b := range fn.Blocks {
 		for _, ins := range b.Instrs {
@@ -383,28 +392,66 @@ func gateRule(p *core.Program, r *core.Result, fn, callee *ssa.Function, what st
 			n++
 			expr := what + ": " + core.Short(ssax.Canon(call))
 			good := false
-			why := "the result of the call is not tested by a branch whose true side returns true"
+			why := "the result of the call is neither returned as it is nor tested by a branch whose true side returns true"
 			for _, ref := range *call.Referrers() {
-				iff, isIf := ref.(*ssa.If)
-				if !isIf || iff.Cond != call {
-					continue
-				}
-				// every path from the true successor must return the constant true before anything else can intervene
-				good = returnsTrueOnly(iff.Block().Succs[0], map[*ssa.BasicBlock]bool{})
-				if !good {
-					why = "the true side of the test does not return true on every path"
+				switch x := ref.(type) {
+				case *ssa.If:
+					if x.Cond != call {
+						continue
+					}
+					// every path from the true successor must return the constant true before anything else can intervene
+					good = returnsTrueOnly(x.Block().Succs[0], map[*ssa.BasicBlock]bool{})
+					if !good {
+						why = "the true side of the test does not return true on every path"
+					}
+				case *ssa.Return:
+					if len(x.Results) == 1 && x.Results[0] == ssa.Value(call) {
+						good = true
+					}
+				case *ssa.Phi:
+					// `a || call`: the phi is the returned verdict
+					for _, r2 := range *x.Referrers() {
+						if ret, isRet := r2.(*ssa.Return); isRet && len(ret.Results) == 1 && ret.Results[0] == ssa.Value(x) {
+							good = true
+						}
+					}
 				}
 			}
 			if good {
-				r.OK("D8", core.QualName(fn), expr, p.Pos(call.Pos()), "true edge reaches only `return true`")
+				r.OK("D8", core.QualName(fn), expr, p.Pos(call.Pos()), "a true result makes "+fn.Name()+" answer true")
 			} else {
 				r.Fail("D8", core.QualName(fn), expr, p.Pos(call.Pos()), why)
 			}
 		}
 	}
-	if n == 0 {
-		r.Fail("D8", core.QualName(fn), what, p.Pos(fn.Pos()), "no call of "+callee.Name()+" in "+fn.Name()+": the value is not routed to it")
+	if n > 0 {
+		return true
 	}
+	if depth >= 2 {
+		return false
+	}
+	// through a boolean helper
+	found := false
+	seen := map[*ssa.Function]bool{}
+	for _, ci := range ssax.Calls(fn) {
+		h := ci.Common().StaticCallee()
+		if h == nil || seen[h] || h == fn || !p.InModule(h) || len(h.Blocks) == 0 || !reachesFrom(p, h, callee) {
+			continue
+		}
+		seen[h] = true
+		res := h.Signature.Results()
+		if res.Len() != 1 {
+			continue
+		}
+		if bt, ok := res.At(0).Type().Underlying().(*types.Basic); !ok || bt.Kind() != types.Bool {
+			continue
+		}
+		if gateChain(p, r, h, callee, what+" (in "+h.Name()+")", depth+1, true) {
+			found = true
+			gateChain(p, r, fn, h, what+" (through "+h.Name()+")", depth+1, true)
+		}
+	}
+	return found
 }
 
 func returnsTrueOnly(b *ssa.BasicBlock, seen map[*ssa.BasicBlock]bool) bool {
